@@ -2,7 +2,7 @@
 //! vlib/engine.py) and compared with the engine's own catalogue.  This module only produces the cases: the statements rendered by
 //! SqliteQueryBuilder, follow-up probe statements, and catalogue queries with the rows the DECLARATION (the builder calls below) implies.
 //! Families: every column type alone (storage affinity by typeof() probes); column specification subsets in several declaration orders
-//! (table_xinfo: nullability, default, primary key, hidden; index_list: uniqueness; sqlite_sequence: autoincrement; CHECK by a violating
+//! [thorough tier: up to 4] (table_xinfo: nullability, default, primary key, hidden; index_list: uniqueness; sqlite_sequence: autoincrement; CHECK by a violating
 //! insert); table-level primary key / unique constraints and foreign keys (index_xinfo, foreign_key_list); CREATE / DROP INDEX forms
 //! (columns, direction, uniqueness, partial predicate); ALTER TABLE add / rename / drop column, RENAME TO, DROP TABLE.
 use crate::util::esc;
@@ -91,7 +91,9 @@ pub fn cases() -> Vec<Case> {
     // ---- 2. column specifications, in every order of up to 3 out of 9 (AUTOINCREMENT only next to PRIMARY KEY; GENERATED not with DEFAULT / PRIMARY KEY)
     let specs = [Sp::NotNull, Sp::Null, Sp::Default, Sp::Unique, Sp::Primary, Sp::AutoInc, Sp::Check, Sp::Extra, Sp::Comment, Sp::Generated];
     let mut seqs: Vec<Vec<Sp>> = vec![vec![]];
-    for x in specs { seqs.push(vec![x]); for y in specs { if x != y { seqs.push(vec![x, y]); for z in specs { if z != x && z != y { seqs.push(vec![x, y, z]); } } } } }
+    for x in specs { seqs.push(vec![x]); for y in specs { if x != y { seqs.push(vec![x, y]); for z in specs { if z != x && z != y { seqs.push(vec![x, y, z]);
+        // thorough tier (VREPLAY_DEEP=1): sequences of 4 specifications as well
+        if crate::util::deep() { for u in specs { if u != x && u != y && u != z { seqs.push(vec![x, y, z, u]); } } } } } } } }
     for sq in seqs {
         let has = |s: Sp| sq.contains(&s);
         if has(Sp::AutoInc) && !has(Sp::Primary) { continue; }                 // not SQLite syntax: AUTOINCREMENT belongs to PRIMARY KEY
